@@ -72,6 +72,12 @@ class Gen(object):
             klass = type(klass.__name__, (klass,), {})
             klass.__abstractmethods__ = frozenset()
         o = object.__new__(klass)
+        import logging
+        for nf in REG.noop_fields:
+            try:
+                object.__setattr__(o, nf, logging.getLogger("verif-native"))
+            except AttributeError:
+                pass
         for (cn, f), fty in list(REG.fields.items()):
             if cn in names:
                 try:
@@ -91,8 +97,9 @@ def _describe(v, depth=0):
         return ("[%s]" if isinstance(v, list) else "(%s)") % inner
     if isinstance(v, dict):
         return "{%s}" % ", ".join("%s: %s" % (_describe(a), _describe(b)) for a, b in v.items())
-    if hasattr(v, "__dict__") and depth < 4:
-        return "%s(%s)" % (type(v).__name__, ", ".join("%s=%s" % (k, _describe(x, depth + 1)) for k, x in vars(v).items()))
+    if hasattr(v, "__dict__") and depth < 4 and type(v).__module__.startswith("jellyfysh"):
+        return "%s(%s)" % (type(v).__name__, ", ".join("%s=%s" % (k, _describe(x, depth + 1)) for k, x in vars(v).items()
+                                                        if k not in REG.noop_fields))
     return repr(v)[:80]
 
 
@@ -174,7 +181,10 @@ def fuzz_main(case):
                 return f
             for kind in orig:
                 setattr(random, kind, wrap(kind))
-            old_env = copy.deepcopy(env)
+            try:
+                old_env = copy.deepcopy(env)
+            except Exception:
+                return {"stats": stats, "found": None, "skipped": "inputs are not deep-copyable (custom __deepcopy__)"}
             shown = {k: _describe(v) for k, v in env.items()}
             shown_globals = {gn: _describe(getattr(module, gn)) for _, gn, _, _ in gvars}
             pre_ids = native_eval.collect_ids(env.values())
@@ -191,7 +201,11 @@ def fuzz_main(case):
                 old_env["draw%d" % i] = d
             env["result"] = result
             violated = []
-            if raised is not None:
+            if raised is not None and raised in c.may_raise:
+                for cl in c.may_raise[raised]:
+                    if native_eval.eval_clause(cl, env, old_env, c.model, pre_ids, natives, tol=c.native_tol) is False:
+                        violated.append("raised-%s:%s" % (raised, cl))
+            elif raised is not None:
                 if raised not in c.raises:
                     violated.append("no-exception:%s" % raised)
                 else:
